@@ -90,6 +90,7 @@ class Opaque:
         return ("Opaque", self.what)
 
 
+PY_STR_INT = z3.Function("py.str_of_int", z3.IntSort(), z3.StringSort())
 OBJ_SORT = z3.DeclareSort("Obj")  # python objects we never look into but whose identity matters (args tuples, kwargs dicts, ...)
 
 
@@ -911,6 +912,12 @@ class Interp:
                     continue
                 if is_sym(x) and x.sort() == z3.StringSort():
                     parts.append(x)
+                    continue
+                if isinstance(x, int) and not isinstance(x, bool):
+                    parts.append(z3.StringVal(str(x)))
+                    continue
+                if is_sym(x) and x.sort() == z3.IntSort():
+                    parts.append(PY_STR_INT(x))  # str(int): an uninterpreted rendering (the same number gives the same text)
                     continue
             return Opaque("fstring")
         if not parts:
